@@ -11,8 +11,10 @@ import (
 	"verifharness/vt"
 
 	"github.com/tink-crypto/tink-go/v2/aead"
+	"github.com/tink-crypto/tink-go/v2/aead/aesgcm"
 	"github.com/tink-crypto/tink-go/v2/daead"
 	"github.com/tink-crypto/tink-go/v2/hybrid"
+	"github.com/tink-crypto/tink-go/v2/hybrid/ecies"
 	"github.com/tink-crypto/tink-go/v2/hybrid/hpke"
 	"github.com/tink-crypto/tink-go/v2/insecurecleartextkeyset"
 	"github.com/tink-crypto/tink-go/v2/jwt"
@@ -176,9 +178,33 @@ var paramBases = map[string]func() (key.Parameters, error){
 	"CompositeMlDsaPrivateKey/COMPOSITE_MLDSA87_ECDSA_P384": func() (key.Parameters, error) {
 		return compositemldsa.NewParameters(compositemldsa.ECDSAP384, compositemldsa.MLDSA87, compositemldsa.VariantTink)
 	},
+	"HpkePrivateKey/HPKE_MLKEM1024_SHA384_AES256GCM": func() (key.Parameters, error) {
+		return hpke.NewParameters(hpke.ParametersOpts{KEMID: hpke.ML_KEM1024, KDFID: hpke.HKDFSHA384, AEADID: hpke.AES256GCM, Variant: hpke.VariantTink})
+	},
+	"MlDsaPrivateKey/ML_DSA_44": func() (key.Parameters, error) { return mldsa.NewParameters(mldsa.MLDSA44, mldsa.VariantTink) },
+	"EciesAeadHkdfPrivateKey/ECIES_P384_AES256_GCM":   func() (key.Parameters, error) { return eciesParams(ecies.NISTP384, ecies.SHA384, ecies.UncompressedPointFormat) },
+	"EciesAeadHkdfPrivateKey/ECIES_P521_AES256_GCM":   func() (key.Parameters, error) { return eciesParams(ecies.NISTP521, ecies.SHA512, ecies.CompressedPointFormat) },
+	"EciesAeadHkdfPrivateKey/ECIES_X25519_AES256_GCM": func() (key.Parameters, error) { return eciesParams(ecies.X25519, ecies.SHA256, ecies.UnspecifiedPointFormat) },
+	"CompositeMlDsaPrivateKey/COMPOSITE_MLDSA87_ECDSA_P521": func() (key.Parameters, error) {
+		return compositemldsa.NewParameters(compositemldsa.ECDSAP521, compositemldsa.MLDSA87, compositemldsa.VariantTink)
+	},
+	"JwtMlDsaPrivateKey/JWT_ML_DSA_44": func() (key.Parameters, error) {
+		return jwtmldsa.NewParameters(jwtmldsa.Base64EncodedKeyIDAsKID, jwtmldsa.MLDSA44)
+	},
+	"JwtMlDsaPrivateKey/JWT_ML_DSA_87": func() (key.Parameters, error) {
+		return jwtmldsa.NewParameters(jwtmldsa.Base64EncodedKeyIDAsKID, jwtmldsa.MLDSA87)
+	},
 	"JwtMlDsaPrivateKey/JWT_ML_DSA_65": func() (key.Parameters, error) {
 		return jwtmldsa.NewParameters(jwtmldsa.Base64EncodedKeyIDAsKID, jwtmldsa.MLDSA65)
 	},
+}
+
+func eciesParams(c ecies.CurveType, h ecies.HashType, pf ecies.PointFormat) (key.Parameters, error) {
+	dem, err := aesgcm.NewParameters(aesgcm.ParametersOpts{KeySizeInBytes: 32, IVSizeInBytes: 12, TagSizeInBytes: 16, Variant: aesgcm.VariantNoPrefix})
+	if err != nil {
+		return nil, err
+	}
+	return ecies.NewParameters(ecies.ParametersOpts{CurveType: c, HashType: h, NISTCurvePointFormat: pf, DEMParameters: dem, Variant: ecies.VariantTink})
 }
 
 // public halves are derived from the private bases
